@@ -11,10 +11,14 @@ META = {
             "(extract/precedence -> Csvq/Gen/Precedence.lean, fails closed), the model parser is precedence climbing driven by that table with yacc's conflict-resolution rule, and "
             "parse(print e) = e is proved for every tree the parser can build (WellFormed, any depth), WellFormed is proved exact (everything parse returns is well formed), the regenerated "
             "levels are checked against the reviewed order; tied to the real parser by stream op c18.opx (tree shape and printed tokens, valid and invalid token lists). "
+            "the CLAUSE SKELETON OF SELECT is in the model too (Model/Clause.lean): DISTINCT, items (expr [AS alias] | * | t.*), FROM with aliases and join chains (INNER / LEFT / RIGHT / FULL [OUTER] / CROSS / NATURAL, ON | USING), "
+            "WHERE, GROUP BY, HAVING, ORDER BY items with direction and NULLS position, LIMIT (unit, ONLY | WITH TIES), OFFSET: parseSelect(printSelect s ++ rest) = (s, rest) is proved for every well-formed query "
+            "(select_print_parse), parseSelect is total and consumes tokens (parse_total), print-parse-print is idempotent, printSelect is tied clause by clause to the regenerated String() sequences; "
+            "stream op c18.sel diffs the real parser + String() against the model on the clause matrix and on generated queries (valid and damaged). "
             "The String() methods of ast.go are tied by regeneration too: extract/astprint re-derives, for all 68 printable node types, the fields, the fields the printer reads and the ordered, "
             "condition-guarded parts of the method body, and from parser.y the fields every production sets; theorems: every field is read by its printer (exemption: BaseExpr), the print sequences equal "
             "the reviewed reference (Ref/AstPrint.lean), every field a production sets is printed under a condition that holds for it, the operator printers emit what the model's print does. "
-            "PARTIAL: the rest of the grammar layer (statements, clauses, BETWEEN / IN / NOT LIKE / ANY / ALL / row values, functions; goyacc driver + semantic actions + the other String() methods) is not modelled - "
+            "PARTIAL: the rest of the grammar layer (other statements, set operators, sub-selects, INTO / WITH / FOR UPDATE / FETCH / LATERAL, BETWEEN / IN / NOT LIKE / ANY / ALL / row values, functions; goyacc driver + semantic actions + the other String() methods) is not modelled - "
             "parser.Parse totality, error positions, print/parse fixpoint and evaluation agreement are validated by correspondence only "
             "(corpus + grammar-aware mutation + generated queries, all four prepared x ansi-quotes modes)",
     "design_ref": "DESIGN.md section 5, C18",
